@@ -24,7 +24,7 @@ ASSUMPTIONS = ['C15 is conditional on refusal: accepted programs (duplicate labe
 REQUIRED_REACH = {'quick': ['verdict:refused-and-checked', 'depth:>=2', 'via:cli'], 'thorough': ['verdict:refused-and-checked', 'depth:>=2', 'via:cli']}
 EXPECTED_REACH = ['class:' + c for c in progs.FAULTS if c not in ('invalid-syntax',)] + ['compress:on-refused', 'planted:in-pseudo-instruction', 'accepted:no-verdict']
 CHUNK = 40
-VERDICT_CLASSES = ('imm-range', 'imm-range-pseudo', 'data-range', 'unknown-register', 'undefined-label', 'undefined-constant', 'malformed-expr',
+VERDICT_CLASSES = ('far-branch', 'imm-range', 'imm-range-pseudo', 'data-range', 'unknown-register', 'undefined-label', 'undefined-constant', 'malformed-expr',
                    'non-integer-expr', 'error-directive', 'missing-include', 'duplicate-label')
 # malformed *lines* (missing operands) are not one of the listed classes: observations
 MISSING_OPERANDS = {'addi t0, t0', 'lw t0', 'KX = ', 'pack <I', 'db', 'beq t0, t1', 'lui t0', 'add t0, t1', 'jal', 'align', 'align 4 4', 'sw t0, 4(', 'pack',
@@ -86,6 +86,9 @@ def make_scenario(spec, seed, idx):
     else:
         cls = r.choice(VERDICT_CLASSES)
         text, where = r.choice(progs.FAULTS[cls]), r.choice(('first', 'middle', 'last', 'any'))
+    if cls == 'far-branch':
+        # the 5000-byte pad must be the last thing of the whole program, or it would push *other* branches out of range
+        target = tree['main']
     f, ln, planted_text = progs.plant_fault(r, tree, cls, line_text=text, target_file=target, where=where)
     main_dir = posixpath.dirname(tree['main'])
     runs = []
@@ -163,7 +166,7 @@ def run_scenario(scen, keep_events=False):
         res.nontrivial = True
         if comp:
             res.hit('compress:on-refused')
-        shape = re.sub(r'\b(la|lb|lc|ld|le)\b', 'LABEL', pl['shape'])
+        shape = re.sub(r'\b(la|lb|lc|ld|le|fade|cafe)\b', 'LABEL', pl['shape'])
         if not is_asm:
             res.violate('internal-exception', '%s|%s|%s|%s|%s' % (cls, shape, cflag, exc, where_pass),
                         'faulty line %r (class %s) at %s:%d, compress=%s via %s: refused with %s raised in %s instead of AssemblerError'
